@@ -332,6 +332,28 @@ def analyse_loop(repo, rel, cls, fn, loop, zeros, report_ok, report_bad):
                 'path through the loop body (ending near line %s) does not '
                 'advance it: the next element reads the wrong block' % (
                     v, U(loop.iter)[:40], line))
+        # units: a cursor that is paired in a slice with an absolute position
+        # of the loop element (`x[cur:elem_start]`) lives in the element's
+        # position space; it must be *set* to a position of the element
+        # (`cur = elem_end`), not advanced by widths
+        for n in uses:
+            if not isinstance(n, ast.Slice) or n.lower is None \
+                    or n.upper is None:
+                continue
+            lo_, hi_ = n.lower, n.upper
+            if isinstance(lo_, ast.Name) and lo_.id == v and \
+                    _is_elem_position(hi_, loop, elems) and any(
+                        k == 'acc' for k in kinds):
+                a = [x for x, k in zip(asgs, kinds) if k == 'acc'][0]
+                report_bad(
+                    repo.loc(a, cls, fn.name), construct,
+                    'cursor units %s' % v,
+                    '`%s` ends at `%s`, an absolute position taken from the '
+                    'loop element, but its start `%s` is advanced by '
+                    '`%s` (a width): after an element that does not start '
+                    'where the previous one ended the two are in different '
+                    'units and the wrong entries are selected' % (
+                        U(n), U(hi_), v, norm_stmt(a)[:50]))
         # slice bound pairing
         for n in uses:
             if not isinstance(n, ast.Slice) or n.lower is None \
